@@ -101,6 +101,22 @@ std::unique_ptr<Oomd::Engine::DetectorGroup> compileDetectorGroup(
       group.name, std::move(detectors));
 }
 
+// std::stoi throws on garbage and on overflow, and stops silently at the first
+// non-digit; neither must take the daemon down or let "3s" pass as 3.
+bool parseNonNegativeSeconds(const std::string& str, int& out) {
+  try {
+    size_t pos = 0;
+    int val = std::stoi(str, &pos);
+    if (pos != str.size() || val < 0) {
+      return false;
+    }
+    out = val;
+    return true;
+  } catch (const std::exception&) {
+    return false;
+  }
+}
+
 std::unique_ptr<Oomd::Engine::Ruleset> compileRuleset(
     const Oomd::Config2::IR::Ruleset& ruleset,
     bool dropin,
@@ -144,18 +160,18 @@ std::unique_ptr<Oomd::Engine::Ruleset> compileRuleset(
 
   // post_action_delay field is optional
   if (ruleset.post_action_delay.size()) {
-    post_action_delay = std::stoi(ruleset.post_action_delay);
-    if (post_action_delay < 0) {
-      OLOG << "Ruleset post_action_delay must be non-negative";
+    if (!parseNonNegativeSeconds(
+            ruleset.post_action_delay, post_action_delay)) {
+      OLOG << "Ruleset post_action_delay must be a non-negative integer";
       return nullptr;
     }
   }
 
   // prekill_hook_timeout field is optional
   if (ruleset.prekill_hook_timeout.size()) {
-    prekill_hook_timeout = std::stoi(ruleset.prekill_hook_timeout);
-    if (prekill_hook_timeout < 0) {
-      OLOG << "Ruleset prekill_hook_timeout must be non-negative";
+    if (!parseNonNegativeSeconds(
+            ruleset.prekill_hook_timeout, prekill_hook_timeout)) {
+      OLOG << "Ruleset prekill_hook_timeout must be a non-negative integer";
       return nullptr;
     }
   }
